@@ -144,13 +144,24 @@ func main() {
 			expiryLo := monoDeadline - 2*int64(graceHi) // the context cannot expire before this
 			for i := range specs {
 				sp := &specs[i]
+				// the blocked foreground command may be negated ("! exec": being stopped at the
+				// deadline is not the failure the script expected) and may be followed by
+				// commands that start no process
+				neg, tail := "", ""
+				switch sp.Kind {
+				case "block", "trapquit", "ignorequit":
+					if crng.Intn(3) == 0 {
+						neg = "! "
+					}
+					tail = []string{"", "", "! exists nosuchfile\n", "env X=1\n! stdout .\n"}[crng.Intn(4)]
+				}
 				switch sp.Kind {
 				case "block":
-					sp.Text = fmt.Sprintf("exec vhelper block %s\n", sp.Pid)
+					sp.Text = fmt.Sprintf("%sexec vhelper block %s\n%s", neg, sp.Pid, tail)
 				case "trapquit":
-					sp.Text = fmt.Sprintf("exec vhelper trapquit %s\n", sp.Pid)
+					sp.Text = fmt.Sprintf("%sexec vhelper trapquit %s\n%s", neg, sp.Pid, tail)
 				case "ignorequit":
-					sp.Text = fmt.Sprintf("exec vhelper ignorequit %s\n", sp.Pid)
+					sp.Text = fmt.Sprintf("%sexec vhelper ignorequit %s\n%s", neg, sp.Pid, tail)
 				case "exitat":
 					sp.Text = fmt.Sprintf("exec vhelper exitat %s %d\n", sp.Pid, expiryLo+int64(crng.Intn(40)-20)*int64(time.Millisecond))
 				case "early":
@@ -198,7 +209,7 @@ func main() {
 			} else {
 				atomic.AddInt64(&noisy, 1)
 			}
-			softCheck := func(name string, lateness time.Duration, example string) {
+			softCheckT := func(name string, lateness, slack time.Duration, example string) {
 				if !isQuiet {
 					return
 				}
@@ -211,7 +222,7 @@ func main() {
 					soft[name] = st
 				}
 				st.quiet++
-				if lateness > sigma {
+				if lateness > slack {
 					st.breached++
 					if lateness > st.worst {
 						st.worst, st.example = lateness, example
@@ -219,6 +230,7 @@ func main() {
 				}
 				mu.Unlock()
 			}
+			softCheck := func(name string, lateness time.Duration, example string) { softCheckT(name, lateness, sigma, example) }
 			subs := map[string]*tsh.RecT{}
 			for _, sub := range root.Subs[0].Subs {
 				subs[sub.Name] = sub
@@ -273,9 +285,16 @@ func main() {
 					}
 					softCheck("interrupt-late", time.Duration(tq-(monoDeadline-2*int64(graceLo))), fmt.Sprintf("case %d %s: interrupt %v after deadline-2*grace", jb.idx, sp.Name, time.Duration(tq-(monoDeadline-2*int64(graceLo)))))
 					if sp.Kind == "ignorequit" {
-						if end < tq+int64(graceLo)-int64(eps) {
-							mk("killed-too-early", fmt.Sprintf("%s ignores the interrupt; it was killed (script ended) %v after the interrupt, a grace period is at least %v", sp.Name, time.Duration(end-tq), graceLo), log)
+						// The helper's timestamp is taken when it handles the signal, which on a
+						// loaded machine lags the moment testscript sent it: "ended less than a grace
+						// period after the recorded interrupt" therefore decides nothing by itself
+						// (false alarm seen once, 53 ms lag, while two other sweeps were running).
+						// What is certain: the context cannot expire before expiryLo, so the kill
+						// cannot come before expiryLo + one grace period.
+						if end < expiryLo+int64(graceLo)-int64(eps) {
+							mk("killed-too-early", fmt.Sprintf("%s ignores the interrupt; it was killed (script ended) %v before the deadline, but the interrupt cannot come earlier than %v before it and a grace period is at least %v", sp.Name, time.Duration(monoDeadline-end), 2*graceHi, graceLo), log)
 						}
+						softCheckT("kill-early", time.Duration(tq+int64(graceLo)-end), graceLo/2, fmt.Sprintf("case %d %s: ended %v after the recorded interrupt, a grace period is %v", jb.idx, sp.Name, time.Duration(end-tq), graceLo))
 						softCheck("kill-late", time.Duration(end-(tq+int64(graceHi))), fmt.Sprintf("case %d %s: ended %v after interrupt+grace", jb.idx, sp.Name, time.Duration(end-(tq+int64(graceHi)))))
 					}
 				case "block", "bgblock", "bgwait":
@@ -304,6 +323,11 @@ func main() {
 					ks = append(ks, s.Kind)
 				}
 				r.Distinct(fmt.Sprintf("%v|%v", jb.dist, ks))
+				for _, s := range specs {
+					if strings.HasPrefix(s.Text, "! exec") {
+						r.Count("negated_blocked_commands", 1)
+					}
+				}
 			}
 			if jb.idx < 2 {
 				r.Sample(map[string]any{"kind": "case", "deadline_distance": jb.dist.String(), "scripts": specs, "max_calibration_lateness": time.Duration(atomic.LoadInt64(&maxLate)).String()})
@@ -321,7 +345,7 @@ func main() {
 				continue
 			}
 			if st.breached >= 3 && st.breached*5 >= st.quiet*4 {
-				r.Violation("systematically-late "+name, fmt.Sprintf("soft bound %q breached in %d of %d quiet cases (slack %v); worst: %s", name, st.breached, st.quiet, sigma, st.example), softOut[name])
+				r.Violation("systematically-off "+name, fmt.Sprintf("soft bound %q breached in %d of %d quiet cases (slack %v, half a grace period for kill-early); worst: %s", name, st.breached, st.quiet, sigma, st.example), softOut[name])
 			}
 		}
 		r.Set("soft_bounds", softOut)
